@@ -14,17 +14,19 @@
 #define VERIF_DEFINE_GHOSTS
 #include "verif_prelude.h"
 //@ table src/xercesc/util/XMLChar.hpp gPlainContentCharMask
-//@ struct src/xercesc/internal/XMLReader.hpp XMLReader only=auto
+//@ struct src/xercesc/internal/XMLReader.hpp XMLReader only=fCharIndex,fCharsAvail,fCharBuf,fNoMore,fCurCol
 //@ include XMLReader_ri.inc
 //@ include XMLBuffer_abs.inc
 struct { XMLByte a[0x10000]; } TAB;     /* arbitrary table (harness input) */
+/* the member pointer fgCharCharsTable (set by setXMLVersion to one of the two static tables) is modelled as the table itself */
+#define fgCharCharsTable (TAB.a)
 #define PLAIN(c) ((TAB.a[(XMLCh)(c)] & gPlainContentCharMask) != 0)
 XMLSize_t BUFLEN0;                      /* entry ghost (harness-owned, never assigned) */
 
 /*@extract src/xercesc/internal/XMLReader.hpp XMLReader::movePlainContentChars
 method dest.append => XMLBuffer_append_n
 contract
-__CPROVER_requires(RI_RDR && !verif_thrown && fgCharCharsTable == TAB.a && BUFLEN <= VERIF_BUFLEN_MAX && BUFLEN0 == BUFLEN)
+__CPROVER_requires(RI_RDR && !verif_thrown && BUFLEN <= VERIF_BUFLEN_MAX && BUFLEN0 == BUFLEN)
 __CPROVER_assigns(fCharIndex, fCurCol, BUFLEN, BUFCH)
 /* C01 */
 __CPROVER_ensures(RI_RDR && !verif_thrown && fCharIndex >= __CPROVER_old(fCharIndex))
